@@ -136,6 +136,30 @@ def main():
     del t["events"][6]
     demos.append(("X06 dropped add_gate_noise call", "Trace_NoiseMap", t, {"ReturnOK", "MapOK"}))
 
+    # --- photon-loss accounting (X07): the control photon charged with the target's noise (defect X07-F1 as a record)
+    from drivers import x07
+    spec = [{"q": ["p0"], "loss": [1]}, {"q": ["p0", "p1"], "loss": [2, 0]}]
+    ev = x07.event(x07.build(spec, 2, random.Random(3)), "photon-is-control")
+    base = {"tid": 1, "events": [ev]}
+    assert verdict("Trace_PhotonLoss", base) == []
+    t = copy.deepcopy(base)
+    t["events"][0]["out"][0] = [1, 2]                      # 1/2 instead of 3/8: the loss on the control ignored
+    demos.append(("X07 loss on a control photon ignored", "Trace_PhotonLoss", t, {"SurvivalOK"}))
+
+    # --- Monte-Carlo noise assignment (X08): a wrapper's noise attached to the mirrored gate (defect X08-F1 as a record)
+    from drivers import x08
+    from graphiq.noise.monte_carlo_noise import McNoiseMap
+    import graphiq.noise.noise_models as gnm
+    mm = McNoiseMap()
+    mm.add_gate_noise("p", "Hadamard", [(gnm.PauliError("X"), 1.0)])
+    circ = cz.build_circuit(1, 1, 1, [{"k": "OneQubitGateWrapper", "r": [["p", 0]], "c": None, "w": ["Phase", "Hadamard"]}])
+    base = {"tid": 1, "events": [x08.event(circ, mm, 5, "wrapper")]}
+    assert verdict("Trace_McAssign", base) == []
+    t = copy.deepcopy(base)
+    t["events"][0]["out"][0].reverse()
+    t["events"][0]["out2"][0].reverse()
+    demos.append(("X08 wrapper noise on the mirrored gate", "Trace_McAssign", t, {"SupportOK"}))
+
     # --- update_hof replay (C19): a worse circuit ranked above a better one
     class _Ctx:
         rng = random.Random(5)
